@@ -49,9 +49,8 @@ S3 = Scenario(
      "wire.disconnect_pins_from.set", "wire.pins=", "cable.wires=", "cable.create_wire",
      "cable.add_wire", "cable.remove_wire", "cable.remove_wires_from", "cable.remove_wires_from.set",
      "definition.remove_cable", "definition.add_cable", "definition.cables=", "definition.remove_cables_from",
-     "definition.remove_cables_from.set", "clone", "definition.add_child"],
-    limits={"positions": (None, 0), "bulk_max": 2, "proxy_pairs": _valid_proxies_plus_one, "names": (None, "a"),
-            "clone_kinds": "XCWP"},
+     "definition.remove_cables_from.set"],
+    limits={"positions": (None, 0), "bulk_max": 2, "proxy_pairs": _valid_proxies_plus_one, "names": (None, "a")},
     depth={"quick": 2, "thorough": 3},
     note="connect/disconnect with inner pins, stored outer pins and proxies; wire/cable reorder")
 
@@ -218,6 +217,15 @@ S14 = Scenario(
     limits={"positions": (None,), "names": (None,), "counts": (None,)},
     depth={"quick": 3, "thorough": 4},
     note="a list object the caller keeps is assigned to the wires / pins of two bundles, which are then edited")
+
+S15 = Scenario(
+    "S15-clones-of-wired-elements", seeds.seed_conn,
+    ["clone", "definition.add_child", "definition.add_cable", "definition.add_port", "cable.add_wire", "wire.connect_pin",
+     "wire.disconnect_pin", "cable.remove_wire"],
+    limits={"positions": (None,), "bulk_max": 1, "proxy_pairs": lambda w: [], "names": (None,), "clone_kinds": "XCWP", "odd_bulk": False},
+    depth={"quick": 2, "thorough": 3},
+    note="instances, cables, wires and ports that are wired are cloned; the copies are put to use (C01 and C14 only: clone "
+         "is not an editing call in the sense of C19)")
 
 STRUCTURAL += [S10, S11, S9, S12, S13, S14]
 INSTANCE_SCENARIOS += [S11]
